@@ -205,3 +205,13 @@ claim("C23",
       "checks (graph search over a str|type node set needs a transitive-closure argument that was not built), the "
       "skip-check options and the human-in-the-loop flag. This check must not be read as a proof of C23.",
       category="other")
+
+claim("C16",
+      "In-memory store only: under the invariant 'every run's log is numbered 0,1,2,... in list order', append_event is "
+      "proved to append exactly one record with the next consecutive number (earlier records and other runs' logs "
+      "untouched, invariant kept), and query_events to return only records of this run numbered above the cursor, in "
+      "publication order and once each, all of them when no limit is given and at most `limit` otherwise.",
+      "subscribe_events (an async generator with a condition variable: cursoring, termination right after the first "
+      "terminal event), the SQLite store (MAX+1 in SQL) and the HTTP layer (_resolve_event_stream) are not under "
+      "contract; 'the first record returned is exactly number k+1' needs a counting argument that is not stated.",
+      category="other")
